@@ -1,11 +1,12 @@
 // c20: AutoMigrate is idempotent and never loses data.
 // Three kinds of cases, all on the REAL gorm migrator:
-//   decide  Migrator.MigrateColumn driven directly with a generated (field, reported column type)
-//           pair; a recording migrator notes AlterColumn / Create-/DropConstraint calls
-//   round   real SQLite through the recording driver: migrate v1, insert rows, migrate v1 again
-//           (no CREATE/ALTER/DROP may reach the driver), migrate v2 = v1 + added fields/indexes/
-//           constraints, dump compare, insert and read a v2 record
-//   reorder Migrator.ReorderModels(values, autoAdd=true) on models with foreign keys
+//
+//	decide  Migrator.MigrateColumn driven directly with a generated (field, reported column type)
+//	        pair; a recording migrator notes AlterColumn / Create-/DropConstraint calls
+//	round   real SQLite through the recording driver: migrate v1, insert rows, migrate v1 again
+//	        (no CREATE/ALTER/DROP may reach the driver), migrate v2 = v1 + added fields/indexes/
+//	        constraints, dump compare, insert and read a v2 record
+//	reorder Migrator.ReorderModels(values, autoAdd=true) on models with foreign keys
 package main
 
 import (
@@ -32,6 +33,7 @@ type recState struct {
 	log      []string // "AddColumn table col", ...
 	delegate bool     // run the SQLite migrator's DDL as well
 	aliases  map[string][]string
+	rec      *recdrv.Recorder
 }
 
 type recDialector struct {
@@ -57,10 +59,17 @@ func (m recMig) note(kind string, value interface{}, name string) {
 	m.st.log = append(m.st.log, kind+" "+m.tbl(value)+" "+name)
 }
 func (m recMig) AddColumn(value interface{}, name string) error {
-	m.note("AddColumn", value, name)
 	if m.st.delegate {
-		return m.Migrator.AddColumn(value, name)
+		// observed at the DDL level: AutoMigrate also calls AddColumn for a field excluded from
+		// migration, which must then not reach the database
+		n0 := len(ddlOf(m.st.rec))
+		err := m.Migrator.AddColumn(value, name)
+		if len(ddlOf(m.st.rec)) > n0 {
+			m.note("AddColumn", value, name)
+		}
+		return err
 	}
+	m.note("AddColumn", value, name)
 	return nil
 }
 func (m recMig) AlterColumn(value interface{}, name string) error {
@@ -142,6 +151,7 @@ func open(st *recState, flags ...string) (*gorm.DB, *recdrv.Recorder) {
 	db, err := gorm.Open(recDialector{Dialector: sqlite.Dialector{Conn: sqlDB}, st: st}, cfg)
 	lib.Must(err)
 	rec.Reset()
+	st.rec = rec
 	return db, rec
 }
 
@@ -181,18 +191,18 @@ type RepIn struct {
 // fakeCT implements gorm.ColumnType with arbitrary (value, ok) answers.
 type fakeCT struct{ r RepIn }
 
-func (c fakeCT) Name() string                   { return "col" }
-func (c fakeCT) DatabaseTypeName() string       { return c.r.Type }
-func (c fakeCT) ColumnType() (string, bool)     { return c.r.Type, true }
-func (c fakeCT) PrimaryKey() (bool, bool)       { return false, false }
-func (c fakeCT) AutoIncrement() (bool, bool)    { return false, false }
-func (c fakeCT) Length() (int64, bool)          { return c.r.Len, c.r.LenOK }
+func (c fakeCT) Name() string                      { return "col" }
+func (c fakeCT) DatabaseTypeName() string          { return c.r.Type }
+func (c fakeCT) ColumnType() (string, bool)        { return c.r.Type, true }
+func (c fakeCT) PrimaryKey() (bool, bool)          { return false, false }
+func (c fakeCT) AutoIncrement() (bool, bool)       { return false, false }
+func (c fakeCT) Length() (int64, bool)             { return c.r.Len, c.r.LenOK }
 func (c fakeCT) DecimalSize() (int64, int64, bool) { return c.r.Prec, 0, c.r.PrecOK }
-func (c fakeCT) Nullable() (bool, bool)         { return c.r.Nullable, c.r.NullableOK }
-func (c fakeCT) Unique() (bool, bool)           { return c.r.Unique, c.r.UniqueOK }
-func (c fakeCT) ScanType() reflect.Type         { return reflect.TypeOf("") }
-func (c fakeCT) Comment() (string, bool)        { return c.r.Comment, c.r.CommentOK }
-func (c fakeCT) DefaultValue() (string, bool)   { return c.r.Default, c.r.DefaultOK }
+func (c fakeCT) Nullable() (bool, bool)            { return c.r.Nullable, c.r.NullableOK }
+func (c fakeCT) Unique() (bool, bool)              { return c.r.Unique, c.r.UniqueOK }
+func (c fakeCT) ScanType() reflect.Type            { return reflect.TypeOf("") }
+func (c fakeCT) Comment() (string, bool)           { return c.r.Comment, c.r.CommentOK }
+func (c fakeCT) DefaultValue() (string, bool)      { return c.r.Default, c.r.DefaultOK }
 
 type MC struct {
 	ID  uint
@@ -378,12 +388,13 @@ var pairs = []pair{
 	{"P4", &P4{}, &P4v2{}, nil}, {"P5", &P5{}, &P5v2{}, nil}, {"P6", &P6{}, &P6v2{}, []interface{}{&Owner{}}},
 	{"P7", &P7{}, &P7v2{}, nil},
 	{"P8", &P8{}, &P8v2{}, []interface{}{&P8Tag{}}},
+	{"P9", &P9{}, &P9v2{}, nil},
 }
 
 type RoundIn struct {
-	Pair string `json:"pair"`
-	Rows int    `json:"rows"`
-	Seed uint64 `json:"seed"`
+	Pair  string `json:"pair"`
+	Rows  int    `json:"rows"`
+	Seed  uint64 `json:"seed"`
 	Flags string `json:"flags,omitempty"` // "" | disablefk | ignorerel | both (migrator configuration)
 }
 type ColObs struct {
@@ -405,14 +416,14 @@ type ModelObs struct {
 	DDL         []string `json:"ddl"` // CREATE/ALTER/DROP statements seen by the recording driver
 }
 type RoundObs struct {
-	Errs    []string   `json:"errs"`
-	First   ModelObs   `json:"first"`  // migrate v1 on an empty database
-	Again   ModelObs   `json:"again"`  // migrate v1 again
-	Extend  ModelObs   `json:"extend"` // migrate v2
-	Before  [][]string `json:"before"` // dump of the v1 columns before v2
-	After   [][]string `json:"after"`  // the same columns after v2
-	NewOK   bool       `json:"new_ok"` // a v2 record was created and read back equal
-	Again2  []string   `json:"again2"` // DDL of migrating v2 a second time
+	Errs   []string   `json:"errs"`
+	First  ModelObs   `json:"first"`  // migrate v1 on an empty database
+	Again  ModelObs   `json:"again"`  // migrate v1 again
+	Extend ModelObs   `json:"extend"` // migrate v2
+	Before [][]string `json:"before"` // dump of the v1 columns before v2
+	After  [][]string `json:"after"`  // the same columns after v2
+	NewOK  bool       `json:"new_ok"` // a v2 record was created and read back equal
+	Again2 []string   `json:"again2"` // DDL of migrating v2 a second time
 }
 
 var ddlRe = regexp.MustCompile(`(?i)^\s*(CREATE|ALTER|DROP)\b`)
@@ -584,21 +595,23 @@ func runRound(in RoundIn) RoundObs {
 	}
 	for i := 0; i < in.Rows; i++ {
 		rec1 := fillRecord(r, p.V1, i)
-		if err := db.Create(rec1).Error; err != nil {
+		if err := db.Omit(notMigrated(db, rec1)...).Create(rec1).Error; err != nil {
 			o.Errs = append(o.Errs, "insert: "+err.Error())
 		}
 	}
 	o.Again = migrateObserved(db, rec, st, p.V1, p.Deps, &o.Errs)
 	var cols []string
 	for _, c := range o.First.Cols {
-		cols = append(cols, c.Name)
+		if !c.Field.Ignore {
+			cols = append(cols, c.Name)
+		}
 	}
 	o.Before = dump(db, o.First.Table, cols)
 	o.Extend = migrateObserved(db, rec, st, p.V2, p.Deps, &o.Errs)
 	o.After = dump(db, o.First.Table, cols)
 	// the migrated table accepts and returns records of the new model
 	rec2 := fillRecord(r, p.V2, 1000)
-	if err := db.Create(rec2).Error; err != nil {
+	if err := db.Omit(notMigrated(db, rec2)...).Create(rec2).Error; err != nil {
 		o.Errs = append(o.Errs, "insert v2: "+err.Error())
 	} else {
 		back := reflect.New(reflect.TypeOf(p.V2).Elem())
@@ -689,6 +702,22 @@ func zeroTimes(x interface{}) interface{} {
 	return c.Interface()
 }
 
+// notMigrated: names of the fields excluded from migration (their columns need not exist)
+func notMigrated(db *gorm.DB, model interface{}) []string {
+	stmt := &gorm.Statement{DB: db}
+	lib.Must(stmt.Parse(model))
+	out := []string{}
+	for _, f := range stmt.Schema.Fields {
+		if f.IgnoreMigration && f.DBName != "" {
+			out = append(out, f.Name)
+		}
+	}
+	return out
+}
+
+// fixed values by field name: rows that are duplicates OUTSIDE the condition of a partial unique index
+var fixedByName = map[string]interface{}{"U1": "u", "U2": int64(5), "Tnt": "t", "Eml": "e", "Arch": int64(1), "Shadow": "", "Ghost": ""}
+
 func fillRecord(r *lib.Rng, model interface{}, i int) interface{} {
 	t := reflect.TypeOf(model).Elem()
 	rec := reflect.New(t)
@@ -703,6 +732,8 @@ func fillRecord(r *lib.Rng, model interface{}, i int) interface{} {
 				// auto-increment key / association left alone
 			case name == "OwnerID":
 				f.SetUint(1)
+			case fixedByName[name] != nil:
+				f.Set(reflect.ValueOf(fixedByName[name]))
 			case f.Kind() == reflect.String:
 				s := fmt.Sprintf("%s%d-%d", strings.ToLower(name[:1]), i, r.Intn(1000000))
 				if len(s) > 10 {
@@ -934,6 +965,6 @@ func main() {
 		}
 		addDecide(kind, fi, ri)
 	}
-	out.Extra["rule"] = "cases = (a) decide: generated schema.Field (data type from a 24-word vocabulary with sizes/precisions/case/space variants, primary key, size, precision, not null, default value and DefaultValueInterface, time/bool/other, comment, unique, IgnoreMigration) x generated reported column type (type name related or unrelated, aliases, length/precision/nullable/default/comment/unique each with an ok flag) fed to the real Migrator.MigrateColumn with a recording migrator; (b) round: 8 hand-written model pairs (incl. mixed-case column: tags and many2many over unique non-primary references with a link test), the relation pairs also under DisableForeignKeyConstraintWhenMigrating / IgnoreRelationshipsWhenMigrating / both (v1, v2 = v1 + fields/indexes/unique index/check constraints; sizes, not null, literal/bool/null defaults, times, bytes, embedded prefix, renamed column, json serializer, unique, check, composite key and index, foreign key) on real SQLite through the recording driver, with 0 and 3 rows; (c) reorder: ReorderModels on random subsets of 7 models with chain/diamond foreign keys. distinct = distinct input shapes; non-trivial = decision is alter or a unique change / rows present / more than one model"
+	out.Extra["rule"] = "cases = (a) decide: generated schema.Field (data type from a 24-word vocabulary with sizes/precisions/case/space variants, primary key, size, precision, not null, default value and DefaultValueInterface, time/bool/other, comment, unique, IgnoreMigration) x generated reported column type (type name related or unrelated, aliases, length/precision/nullable/default/comment/unique each with an ok flag) fed to the real Migrator.MigrateColumn with a recording migrator; (b) round: 9 hand-written model pairs (incl. composite / partial / unique / sorted index options placed on any member field, type: tags carrying their length, fields excluded from migration whose column does not exist, mixed-case column: tags and many2many over unique non-primary references with a link test), the relation pairs also under DisableForeignKeyConstraintWhenMigrating / IgnoreRelationshipsWhenMigrating / both (v1, v2 = v1 + fields/indexes/unique index/check constraints; sizes, not null, literal/bool/null defaults, times, bytes, embedded prefix, renamed column, json serializer, unique, check, composite key and index, foreign key) on real SQLite through the recording driver, with 0 and 3 rows; (c) reorder: ReorderModels on random subsets of 7 models with chain/diamond foreign keys. distinct = distinct input shapes; non-trivial = decision is alter or a unique change / rows present / more than one model"
 	lib.Must(out.Flush())
 }
